@@ -81,12 +81,14 @@ TOKEN_CLASSES = [
     ("huge", ["99999999999999999999", "1" + "0" * 400]),
     # canonical digit strings longer than CPython's int<->str conversion limit (4300 digits by default)
     ("beyond-int-str-limit", ["1" * 4301, "9" * 5000]),
+    # characters that mean something to str.format / %-formatting (error messages quote the token)
+    ("format-metacharacters", ["{", "}", "{0}", "{id}", "{}", "%s", "%(x)s", "{0!r:>9}"]),
 ]
 CLASS_OF = {t: c for c, ts in TOKEN_CLASSES for t in ts}
 REPS = dict(TOKEN_CLASSES)
 ARRAY_TOKENS = [t for c, ts in TOKEN_CLASSES for t in ts]
 STRING_TOKENS = ARRAY_TOKENS + ["0", "1", "2", "~0", "~1", "%", "/"]
-SCALAR_TOKENS = ["0", "1", "-1", "", "a", "-", "enum", "~0", "%"]
+SCALAR_TOKENS = ["0", "1", "-1", "", "a", "-", "enum", "~0", "%", "{id}", "{0}", "%s"]
 CANONICAL = re.compile(r"\A(0|[1-9][0-9]*)\Z")
 
 SPELLINGS = ("min", "full", "total", "enclead")
@@ -692,7 +694,8 @@ SEQ_DOCS = [
     {"items": {"0": {"enum": [5]}, "1": {"enum": [6]}}, "x": [{"enum": [7]}]},                  # object with digit keys
     {"items": "abc", "x": {"0": {"enum": [8]}}},                                                # a string there
 ]
-SEQ_FRAGS = ["/items/0", "/items/1", "/items/2", "/items", "/x/0", "/nope", "/items/-", "", "/0", "/items/01"]
+SEQ_FRAGS = ["/items/0", "/items/1", "/items/2", "/items", "/x/0", "/nope", "/items/-", "", "/0", "/items/01",
+             "/%7Bid%7D", "/items/%7B0%7D", "/x/%7B"]
 
 
 def seq_expected(doc, frag):
